@@ -88,6 +88,10 @@ def chunkings(noise: bytes, suf: bytes, full_bytewise: bool):
 
 
 def replay(case: dict) -> list[str]:
+    if "chunks_b" in case:
+        from mc.props import C06
+
+        return C06.replay(case)
     if case["reader"] == "hdlc_sweep":
         cfg = tuple(case["cfg"])
         pool = X.frame_pool()
@@ -465,6 +469,17 @@ def main(run: core.Run) -> int:
     run.merge(par.pmap(_work_p_tokens, pt, seed=run.seed))
     npn = sum(len(r) for r in P.readout_pool().values()) + 5
     run.merge(par.pmap(_work_p_struct, [(lo, lo + 25) for lo in range(0, npn, 25)], seed=run.seed))
+    # noise + clean suffix handed over in ways that must not matter (re-used receive buffer, other live readers left in
+    # the middle of a frame, ...): the same frames as with plain feeding
+    from mc.props import C06
+
+    pool = X.frame_pool()
+    vt = []
+    for cfg in X.CFGS:
+        suf, _ = hdlc_suffix(cfg, 4, False)
+        for label, noise in (("7ea07d", bytes.fromhex("7ea07d")), ("trunc", b"\x7e" + RH.wire(pool["short"], cfg[0])[:9]), ("junk", b"\x00\x7d\x7e\x7e\x11")):
+            vt.append((f"noise {label} + 4 clean frames", noise + suf, (cfg,)))
+    run.merge(par.pmap(C06._work_variants, vt, seed=run.seed))
     run.log("junk with '/' lines x every cut (pairs of cuts for the short ones)")
     run.merge(par.pmap(_work_p_allcuts, [(i, 36, not q or i < 3) for i in range(36)], seed=run.seed))
     run.log("long periodic noise (several KiB) then clean suffix")
